@@ -448,6 +448,17 @@ def validateHeaderChain (env : Env) (chain : Chain) (hs : List Header) (seals : 
     | none => .accepted
     | some (i, e) => .rejected i e
 
+/-- the consumer side of `insertChain2`'s loop over the blocks of a batch: per block an optional early `continue` placed BEFORE
+    the receive (`skipBefore i`; the code as written has none: every `continue` comes after `err := <-results`), otherwise
+    `err := <-results`.  Returns which result each block was judged by: pairs (block index, result received for it). -/
+def consumeResults {α : Type} (skipBefore : Nat → Bool) : Nat → Nat → List α → List (Nat × α)
+  | _, 0, _ => []
+  | i, n + 1, rs =>
+    if skipBefore i then consumeResults skipBefore (i + 1) n rs
+    else match rs with
+      | [] => []
+      | r :: rest => (i, r) :: consumeResults skipBefore (i + 1) n rest
+
 /-! ## VerifyUncles -/
 
 /-- mainnet history: duplicate-uncle exemptions `(block hash, uncle number)` for blocks with `number ≤ 15000`. -/
